@@ -51,7 +51,7 @@ class ClassRef:
 _SAFE_METHODS = {
     str: {'upper', 'lower', 'replace', 'join', 'strip', 'lstrip', 'rstrip', 'split', 'startswith', 'endswith',
           'format', 'count', 'title', 'capitalize', 'partition', 'rpartition', 'rsplit', 'isdigit', 'isalpha', 'islower', 'isupper',
-          'find', 'index', 'splitlines'},
+          'find', 'index', 'splitlines', 'translate', 'removeprefix', 'removesuffix'},
     dict: {'keys', 'values', 'items', 'get', 'copy'},
     list: {'copy', 'index', 'count'},
     tuple: {'index', 'count'},
@@ -487,6 +487,15 @@ class ConstEval:
             r = self.prog.resolve_expr(mod, f, cls) if isinstance(f.value, ast.Name) and f.value.id not in env else None
             if r and r[0] == 'external' and r[1] in ('copy.deepcopy', 'copy.copy'):
                 return ev(node.args[0])
+            # str.maketrans(...) on constants: the translation table itself
+            if isinstance(f.value, ast.Name) and f.value.id == 'str' and f.value.id not in env and f.attr == 'maketrans' \
+                    and self.prog.resolve(mod, 'str') is None and 1 <= len(node.args) <= 3:
+                try:
+                    return str.maketrans(*[ev(a) for a in node.args])
+                except NotConst:
+                    raise
+                except Exception as e:
+                    raise NotConst(f'maketrans failed: {e}')
             base = ev(f.value)
             for t, names in _SAFE_METHODS.items():
                 if isinstance(base, t) and f.attr in names:
